@@ -20,7 +20,8 @@ def run(chk):
     for fpath, _, _ in flist:
         chk.run_part(HARNESS, 'asan', ['--part', 'nul', '--font', fpath], per // 8, 8, nsamples=1)
     t = chk.tot
-    cov['evaluations'] = int(t.get('nul_segs', 0))
+    cov['evaluations'] = int(t.get('nul_segs', 0) + t.get('nul_illformed_tail_segs', 0))
+    cov['segments_with_an_illformed_tail_before_the_nul'] = int(t.get('nul_illformed_tail_segs', 0))
     cov['distinct_nontrivial'] = int(t.get('nul_overestimates', 0))
     cov['rule'] = ('seeded random/hostile texts (length 0..41, astral or U+FFFD last) x 3 encodings x dir 0/1 x nChars - len in {0,1,2,7,64,4096,65536, code-unit count}; '
                    'buffer allocated exactly to the NUL. Non-trivial: calls whose nChars exceeds the true length (distinct by seed).')
